@@ -14,13 +14,13 @@ EXPLANATION = ('The OptionStore is treated as a transition system: a history of 
                'returns to the inherited value; re-ranged keeps the old value iff still valid; a failing command changes nothing"). Each command runs on a deep copy that replaces '
                'the persisted store only on success, which is how mconf/msetup save coredata.')
 ASSUMPTIONS = ['copy.deepcopy stands in for the pickle round-trip of coredata.dat (pickle is a C module)', 'one top-level project option, one system option, one subproject',
-               'integer values -9..9, ranges within -5..5']
+               'integer values -9..9, ranges within -5..5', 'a yielding boolean option pair (parent / subproject) with symbolic defaults']
 OUT = ('STATED PROMINENTLY: coredata.dat pickling, cmd_line.txt, --wipe replay, rollback of coredata.dat.prev, mconf.run_impl file handling. This check decides the state-transition half of '
        'C08 (2 of the 5 anchored mechanisms); the file-level half is not decided.')
 MANIFEST = dict(
     text='Bounded model checking of the in-memory option state machine: all command histories up to the bound with symbolic values against a last-value/default reference model. '
          'Claimed for the in-memory transitions only; persistence files, --wipe and rollback are outside.',
-    note='Partial claim. Trusted: symx engine, z3, the reference model. Bounds: histories of <=2 (quick) / 4 (thorough) commands over 11 command kinds; a configure command is saved iff set_from_configure_command reports a change, as mconf.run_impl does.')
+    note='Partial claim. Trusted: symx engine, z3, the reference model. Bounds: histories of <=2 (quick) / 3 (thorough) commands over 14 command kinds; a configure command is saved iff set_from_configure_command reports a change, as mconf.run_impl does.')
 
 O = ME = None
 
@@ -43,18 +43,21 @@ def ob_history(n):
         st = O.OptionStore(False)
         st.init_builtins()
         st.add_system_option('someopt', O.UserComboOption('someopt', 'x', 'c0', choices=list(CH)))
-        pk = K('popt', subproject='')
+        pk = K('popt', subproject=''); ybk = K('yb', subproject='')
         lo, hi, d0 = -3, 3, 0
         st.add_project_option(pk, O.UserIntegerOption('popt', 'x', d0, min_value=lo, max_value=hi))
+        ybp0 = decide(sym_bool('ybp0')); ybc0 = decide(sym_bool('ybc0'))
+        st.add_project_option(K('yb', subproject=''), O.UserBooleanOption('yb', 'x', ybp0))       # a boolean project option of the parent ...
         st.initialize_from_top_level_project_call({}, {}, {})
         st.add_project_option(K('sopt', subproject='sub'), O.UserStringOption('sopt', 'x', 'sdefault'))
+        st.add_project_option(K('yb', subproject='sub'), O.UserBooleanOption('yb', 'x', ybc0, yielding=True))      # ... and the same-named yielding option of the subproject
         st.initialize_from_subproject_call('sub', {}, {}, {}, {})
         # reference model
-        ref = dict(someopt='c0', aug=None, popt=0, popt_kind='int', plo=lo, phi=hi, has_popt=True, newopt=None)
+        ref = dict(someopt='c0', aug=None, popt=0, popt_kind='int', plo=lo, phi=hi, has_popt=True, newopt=None, ybp=ybp0, ybs=None)
         persisted = st
         for i in range(n):
             work = copy.deepcopy(persisted)       # load
-            cmd = choose(11, 'cmd%d' % i)
+            cmd = choose(14, 'cmd%d' % i)
             ok = True
             dirty = True       # option-file re-reads are always saved; configure commands save iff set_from_configure_command says something changed (mconf.run_impl)
             new = dict(ref)
@@ -85,7 +88,7 @@ def ob_history(n):
                 elif cmd == 4:      # option file re-read: popt re-ranged (new default inside the new range)
                     lo2 = sym_int('lo%d' % i, -5, 5); hi2 = sym_int('hi%d' % i, -5, 5); d2 = sym_int('d%d' % i, -5, 5)
                     assume(sym_and(lo2 <= d2, d2 <= hi2))
-                    work.update_project_options({pk: O.UserIntegerOption('popt', 'x', d2, min_value=lo2, max_value=hi2)}, '')
+                    work.update_project_options({pk: O.UserIntegerOption('popt', 'x', d2, min_value=lo2, max_value=hi2), ybk: work.get_value_object(ybk)}, '')
                     if ref['has_popt'] and ref['popt_kind'] == 'int':
                         same_range = sym_and(lo2 == ref['plo'], hi2 == ref['phi'])
                         keep = sym_or(same_range, sym_and(ref['popt'] >= lo2, ref['popt'] <= hi2))
@@ -101,21 +104,29 @@ def ob_history(n):
                         new['popt'] = d2; new['plo'] = lo2; new['phi'] = hi2
                     new['popt_kind'] = 'int'; new['has_popt'] = True; new['newopt'] = None     # the re-read file no longer has newopt
                 elif cmd == 5:      # option file re-read: popt removed
-                    work.update_project_options({}, '')
+                    work.update_project_options({ybk: work.get_value_object(ybk)}, '')
                     new['has_popt'] = False; new['newopt'] = None
                 elif cmd == 6:      # option file re-read: popt re-typed to boolean
                     b = decide(sym_bool('b%d' % i))
-                    work.update_project_options({pk: O.UserBooleanOption('popt', 'x', b)}, '')
+                    work.update_project_options({pk: O.UserBooleanOption('popt', 'x', b), ybk: work.get_value_object(ybk)}, '')
                     if ref['has_popt'] and ref['popt_kind'] == 'bool': pass      # same type, no choices: value kept
                     else: new['popt'] = b
                     new['popt_kind'] = 'bool'; new['has_popt'] = True; new['newopt'] = None
                 elif cmd == 7:      # option file re-read: a new option appears (popt kept as it is)
-                    keep = {}
+                    keep = {ybk: work.get_value_object(ybk)}
                     if ref['has_popt']:
                         keep[pk] = work.get_value_object(pk)
                     keep[K('newopt', subproject='')] = O.UserStringOption('newopt', 'x', 'fresh')
                     work.update_project_options(keep, '')
                     if ref['newopt'] is None: new['newopt'] = 'fresh'
+                elif cmd == 11:     # the parent's boolean option
+                    b = decide(sym_bool('yb%d' % i))
+                    dirty = work.set_from_configure_command({K('yb', subproject=''): 'true' if b else 'false'}); new['ybp'] = b
+                elif cmd == 12:     # the subproject's yielding option gets its own value
+                    b = decide(sym_bool('yb%d' % i))
+                    dirty = work.set_from_configure_command({K('yb', subproject='sub'): 'true' if b else 'false'}); new['ybs'] = b
+                elif cmd == 13:     # ... and is dropped again: back to the parent's value
+                    dirty = work.set_from_configure_command({K('yb', subproject='sub'): None}); new['ybs'] = None
                 elif cmd == 10:     # a change followed, in the same command, by a -U that has nothing to drop
                     v = CH[choose(4, 'v%d' % i)]
                     dirty = work.set_from_configure_command({K('someopt'): v, K('sopt', subproject='sub'): None})
@@ -137,6 +148,9 @@ def ob_history(n):
             check(eq(persisted.get_value_for('someopt'), ref['someopt']), 'top-level value = last value given, else default')
             check(eq(persisted.get_value_for('someopt', 'sub'), ref['aug'] if ref['aug'] is not None else ref['someopt']),
                   'subproject value = its override, else the inherited value')
+            check(eq(persisted.get_value_for('yb', ''), ref['ybp']), 'parent boolean option = last value given, else default')
+            check(eq(persisted.get_value_for('yb', 'sub'), ref['ybs'] if ref['ybs'] is not None else ref['ybp']),
+                  'yielding subproject option = its own value once given, the parent\'s value otherwise and again after -U')
             if ref['has_popt']:
                 got = persisted.get_value_for(pk)
                 check(eq(got, ref['popt']), 'project option = last value given / kept across a re-range iff still valid / new default otherwise')
@@ -155,7 +169,7 @@ def ob_history(n):
 def obligations(tier):
     q = tier == 'quick'
     out = []
-    for n in (1, 2) if q else (1, 2, 3, 4):
-        out.append(Obligation('history[%d]' % n, ob_history(n), dict(commands=n, kinds='-Dopt, -Dsub:opt, -Usub:opt, -Dpopt, re-range, remove, re-type, add, failing command, two -D in one command, -D plus a no-op -U in one command'),
+    for n in (1, 2) if q else (1, 2, 3):
+        out.append(Obligation('history[%d]' % n, ob_history(n), dict(commands=n, kinds='-Dopt, -Dsub:opt, -Usub:opt, -Dpopt, re-range, remove, re-type, add, failing command, two -D in one command, -D plus a no-op -U in one command, -Dyb (parent boolean), -Dsub:yb / -Usub:yb (yielding boolean)'),
                               labels=('ok', 'failed'), max_paths=20000000))
     return out
